@@ -356,17 +356,26 @@ func grpcExtractResponseMeta(contentTypeShort, contentTypePrefix string, statusC
 }
 
 func grpcAddRequestMeta(contentTypePrefix string, meta requestMeta, headers http.Header) {
+	// Every control header of the protocol is either set or removed: the client may have
+	// sent a value under the same key (it is just metadata in the client's protocol), and
+	// that value must not be taken for part of the request the transcoder makes.
 	headers.Set("Content-Type", contentTypePrefix+meta.codec)
-	if meta.compression != "" {
-		headers.Set("Grpc-Encoding", meta.compression)
-	}
-	if len(meta.acceptCompression) > 0 {
-		headers.Set("Grpc-Accept-Encoding", strings.Join(meta.acceptCompression, ", "))
-	}
+	setOrDelete(headers, "Grpc-Encoding", meta.compression)
+	setOrDelete(headers, "Grpc-Accept-Encoding", strings.Join(meta.acceptCompression, ", "))
+	timeoutStr := ""
 	if meta.hasTimeout {
-		timeoutStr := grpcEncodeTimeout(meta.timeout)
-		headers.Set("Grpc-Timeout", timeoutStr)
+		timeoutStr = grpcEncodeTimeout(meta.timeout)
 	}
+	setOrDelete(headers, "Grpc-Timeout", timeoutStr)
+}
+
+// setOrDelete sets the header to the value, or removes it if the value is empty.
+func setOrDelete(headers http.Header, key, value string) {
+	if value == "" {
+		headers.Del(key)
+		return
+	}
+	headers.Set(key, value)
 }
 
 func grpcAddResponseMeta(contentTypePrefix string, meta responseMeta, headers http.Header) int {
